@@ -8,7 +8,8 @@ cp /repo/go.sum harness/go.sum
 (cd harness && go build -o ../build/astfacts ./tools/astfacts)
 if [ -d harness/tools/clockoverlay ]; then (cd harness && go build -o ../build/clockoverlay ./tools/clockoverlay); fi
 ./build/astfacts -repo /repo -out coq/Gen/Facts.v
-(cd coq && coq_makefile -f _CoqProject -o Makefile && timeout 7200 make -j16)
+./mkcoq.sh
+(cd coq && timeout 7200 make -j16 -k) || echo 'setup: some Coq targets failed (each check reports its own)'
 if [ -x build/clockoverlay ]; then ./build/clockoverlay -repo /repo -out build/overlay; fi
 OV=""; [ -f build/overlay.json ] && OV="-overlay build/overlay.json"
 for d in harness/cmd/*/; do n=$(basename $d); (cd harness && CGO_ENABLED=0 go build -tags verif $(echo $OV | sed "s#build/#../build/#") -o ../build/$n ./cmd/$n); done
